@@ -52,20 +52,37 @@ def verify(d):
     return res
 
 
-def detect(d, tier='quick'):
+def detect(d, tier='quick', inplace=False):
+    """inplace=True: apply to /repo itself, run the check, always undo (the mode the brief describes).
+    inplace=False (default while other agents are using /repo): same check against a scratch worktree via CFLIB_REPO."""
     d = os.path.abspath(d)
     meta = json.load(open(os.path.join(d, 'meta.json')))
     pid = meta['property']
-    rc, out = sh(['git', '-C', REPO, 'status', '--porcelain'])
-    assert out.strip() == '', '/repo not clean: ' + out
-    try:
-        rc, out = sh(['git', '-C', REPO, 'apply', os.path.join(d, 'patch.diff')])
-        if rc != 0:
-            return {'pid': pid, 'applied': False, 'out': out}
-        rc, out = sh([os.path.join(VERIF, 'check'), pid, '--tier', tier], cwd=VERIF, timeout=3600)
-    finally:
-        sh(['git', '-C', REPO, 'checkout', '--', '.'])
-        sh([os.path.join(VERIF, 'check'), '--regen', pid], cwd=VERIF)   # restore Gen/ to the clean tree's
+    if inplace:
+        rc, out = sh(['git', '-C', REPO, 'status', '--porcelain'])
+        assert out.strip() == '', '/repo not clean: ' + out
+        try:
+            rc, out = sh(['git', '-C', REPO, 'apply', os.path.join(d, 'patch.diff')])
+            if rc != 0:
+                return {'pid': pid, 'applied': False, 'out': out}
+            rc, out = sh([os.path.join(VERIF, 'check'), pid, '--tier', tier], cwd=VERIF, timeout=7200)
+        finally:
+            sh(['git', '-C', REPO, 'checkout', '--', '.'])
+            sh([os.path.join(VERIF, 'check'), '--regen', pid], cwd=VERIF)   # restore Gen/ to the clean tree's
+    else:
+        wt = tempfile.mkdtemp(prefix='seeddetect-', dir='/tmp')
+        os.rmdir(wt)
+        try:
+            rc, out = sh(['git', '-C', REPO, 'worktree', 'add', '-q', '--detach', wt, 'HEAD'])
+            assert rc == 0, out
+            rc, out = sh(['git', '-C', wt, 'apply', os.path.join(d, 'patch.diff')])
+            if rc != 0:
+                return {'pid': pid, 'applied': False, 'out': out}
+            rc, out = sh([os.path.join(VERIF, 'check'), pid, '--tier', tier], cwd=VERIF, timeout=7200, env={'CFLIB_REPO': wt})
+        finally:
+            sh(['git', '-C', REPO, 'worktree', 'remove', '--force', wt])
+            shutil.rmtree(wt, ignore_errors=True)
+            sh([os.path.join(VERIF, 'check'), '--regen', pid], cwd=VERIF)
     lines = [l for l in out.split('\n') if l.startswith('VIOLATION') or l.startswith('KNOWN-FINDING') or l.startswith(pid + ' tier')]
     return {'pid': pid, 'applied': True, 'rc': rc, 'detected': rc == 1, 'lines': lines, 'tail': out[-1500:] if rc not in (0, 1) else ''}
 
@@ -82,7 +99,8 @@ def main():
     elif cmd == 'verify':
         print(json.dumps(verify(sys.argv[2]), indent=1))
     elif cmd == 'detect':
-        print(json.dumps(detect(sys.argv[2], sys.argv[3] if len(sys.argv) > 3 else 'quick'), indent=1))
+        args = [a for a in sys.argv[3:] if not a.startswith('--')]
+        print(json.dumps(detect(sys.argv[2], args[0] if args else 'quick', inplace='--inplace' in sys.argv), indent=1))
 
 
 if __name__ == '__main__':
